@@ -6,6 +6,7 @@ active-set solver `fnnls_cholesky` (with its rank-one Cholesky updates) is execu
 real-valued comparisons forks the path under the decision-margin policy (DESIGN 2.2), LAPACK calls act on concrete
 matrices or are lifted linearly.  On every path the returned vector is checked against the KKT certificate."""
 import os
+import time as _time
 from fractions import Fraction
 
 import numpy as np
@@ -49,6 +50,10 @@ CASE_BUDGET_S = {"quick": 240, "thorough": 1500}
 
 class Undecided(Exception):
     pass
+
+
+def _case_budget():
+    return CASE_BUDGET_S.get(os.environ.get("VERIF_TIER", "quick"), 240)
 
 
 def _rat(x):
@@ -236,6 +241,8 @@ def _install():
             w = V.rval(width)
             self._add(z3.Or(t >= w, t <= -w))
         r = orig_decide(self, c, payload_fn)
+        if _time.time() - getattr(self, "_t0", _time.time()) > _case_budget() + 60:
+            raise Undecided("case budget exhausted in the middle of a path")
         if self.stats.feas_unknown - _STATE.get("fu0", 0) >= MAX_UNDECIDED:
             raise Undecided("the solver could not decide the feasibility of %d branches on one path" % MAX_UNDECIDED)
         return r
@@ -420,7 +427,7 @@ def _guarded(ctx, fn):
         raise PathAbort()           # enough counterexamples for this case: stop exploring
     if getattr(ctx, "_t0", None) is None:
         ctx._t0 = time.time()
-    if time.time() - ctx._t0 > CASE_BUDGET_S.get(os.environ.get("VERIF_TIER", "quick"), 240):
+    if time.time() - ctx._t0 > _case_budget():
         if not getattr(ctx, "_budget_reported", False):
             ctx._budget_reported = True
             ctx.stats.errors.append("case budget exhausted after %d paths: exploration incomplete" % ctx.stats.paths)
